@@ -777,7 +777,7 @@ func genAmplifier(t *rapid.T) (string, string, int) {
 }
 
 func TestPropInputs(t *testing.T) {
-	ev.Rule("inputs <= 16 KiB (quick) / 64 KiB (thorough): arbitrary bytes, token soups from the WGSL vocabulary incl. hostile numerals, token-level mutations (delete/duplicate/swap/replace/splice/truncate) of corpus and generated valid programs, and 30 amplifier families (nesting, chains, long tokens, unterminated constructs) parameterised by n; each input runs in an isolated worker through tokenize / parse / lower / validate / one-call compile / all five backends with default or alternate options; violation = recovered panic, worker death (fatal error, live heap > 1.5 GB), no answer within 120 s on a re-run, or (amplifiers, sizes doubled while the previous one answers within 2 s) allocation growing faster than n^3.5; non-trivial = non-blank input accepted by the parser (or lowered to a module with >= 1 type/function/global), or an amplifier with n >= 64; distinct = hash of bytes+api+options")
+	ev.Rule("inputs <= 16 KiB (quick) / 64 KiB (thorough): arbitrary bytes, token soups from the WGSL vocabulary incl. hostile numerals, token-level mutations (delete/duplicate/swap/replace/splice/truncate, identifier cutting / stretching, incomplete generic type spellings) of corpus and generated valid programs, and 40 amplifier families (nesting, chains, diamonds over let / const / call / select, call cycles, long tokens, unterminated constructs) parameterised by n; each input runs in an isolated worker through tokenize / parse / lower / validate / one-call compile / all five backends with default or alternate options; violation = recovered panic, worker death (fatal error, live heap > 1.5 GB), no answer within 120 s on a re-run, or (amplifiers, sizes doubled while the previous one answers within 2 s) allocation growing faster than n^3.5; non-trivial = non-blank input accepted by the parser (or lowered to a module with >= 1 type/function/global), or an amplifier with n >= 64; distinct = hash of bytes+api+options")
 	ev.Assume("the polynomial time/memory bound is approximated by generous fixed limits (120 s, 1.5 GB live heap) and by the growth exponent of allocated bytes on amplifier families; CPU-only super-polynomial work shows up only as a missing answer")
 	rapid.Check(t, func(t *rapid.T) {
 		in := &Input{API: "all", Opts: "default"}
